@@ -16,6 +16,7 @@ use std::time::{Duration, Instant};
 
 pub mod envx;
 pub mod wire;
+pub mod rgen;
 
 pub const VERIF_DIR: &str = "/verif";
 
